@@ -20,6 +20,9 @@ func init() {
 	register(&Rule{ID: "C02.4", Prop: "C02", Min: 1,
 		Text: "bindReply marks the call as replied (non-nil inputMeta from AcquireArgs) on every path after taking the per-call lock, so the disconnect path cannot cancel a call the reply path owns",
 		Run:  runC02_4})
+	register(&Rule{ID: "C02.10", Prop: "C02", Min: 1,
+		Text: "a reply is bound at most once: after taking the per-call lock bindReply re-checks that the call is still pending (no reply yet and no final status) and otherwise releases the lock and binds nothing, so a repeated reply frame cannot complete the call a second time",
+		Run:  runC02_10})
 	register(&Rule{ID: "C02.5", Prop: "C02", Min: 3,
 		Text: "cross-stage lock pairing: the mutex locked by bindReply during ReadMessage is released by handleReply/handle on every path of the read loop - every path from the read to the next iteration or to a return runs handle()/handleReply() on that context (directly, or in the dispatched goroutine on Go()'s success edge), and the function that invokes Socket.ReadMessage releases it on the panic edge too",
 		Run:  runC02_5})
@@ -361,7 +364,13 @@ func runC02_4(c *Ctx) {
 		c.Undec("bindReply lock", p.Pos(bind.Pos()), "cmd.mu.Lock() not found in bindReply (the cross-stage protocol changed; rule must be re-read)")
 		return
 	}
+	unlock := p.MethodObj("sync", "Mutex", "Unlock")
 	ok, _ := p.MustPassBeforeExit(lockCall, func(i ssa.Instruction) bool {
+		// the path either releases the lock again (call already completed) ...
+		if call, isC := i.(*ssa.Call); isC && CalleeObj(call) == unlock && isCallCmdMu(p, call.Call.Args[0]) {
+			return true
+		}
+		// ... or marks the call as replied
 		st, isSt := i.(*ssa.Store)
 		if !isSt || !isFieldAddr(st.Addr, ccN, metaIdx) {
 			return false
@@ -370,7 +379,7 @@ func runC02_4(c *Ctx) {
 		return isCall && CalleeObj(call) == acquire
 	}, nil)
 	c.fact("must-pass")
-	c.Check(ok, "bindReply marks replied", p.InstrPos(lockCall), "inputMeta = AcquireArgs() on every path after Lock", "bindReply can return with the call locked but not marked as replied (inputMeta nil): the disconnect path would cancel a call the reply path owns")
+	c.Check(ok, "bindReply marks replied", p.InstrPos(lockCall), "every path after Lock marks the call replied (inputMeta = AcquireArgs()) or releases the lock again", "bindReply can return with the call locked but not marked as replied (inputMeta nil): the disconnect path would cancel a call the reply path owns")
 }
 
 func runC02_5(c *Ctx) {
@@ -617,4 +626,70 @@ func runC02_9(c *Ctx) {
 		pos = p.InstrPos(adds[0])
 	}
 	c.Check(ok, "graceCallCmdWaitGroup Add(1) before publication", pos, "single Add(1) in AsyncCall dominating callCmdMap.Store", fmt.Sprintf("graceCallCmdWaitGroup.Add: %d site(s); must be exactly one Add(1) in AsyncCall before the call is published (Close would otherwise not wait for it or wait for ever)", len(adds)))
+}
+
+func runC02_10(c *Ctx) {
+	p := c.P
+	bind := p.Fn(Root, "handlerCtx", "bindReply")
+	lock := p.MethodObj("sync", "Mutex", "Lock")
+	unlock := p.MethodObj("sync", "Mutex", "Unlock")
+	hasReply := p.MethodObj(Root, "callCmd", "hasReply")
+	acquire := p.FuncObj(Root+"/utils", "AcquireArgs")
+	ccN, metaIdx := p.FieldIndex(Root, "callCmd", "inputMeta")
+	hcN, ccIdx := p.FieldIndex(Root, "handlerCtx", "callCmd")
+	var lockCall ssa.Instruction
+	Instrs(bind, func(i ssa.Instruction) {
+		if call, ok := i.(*ssa.Call); ok && CalleeObj(call) == lock && isCallCmdMu(p, call.Call.Args[0]) {
+			lockCall = i
+		}
+	})
+	if lockCall == nil {
+		c.Undec("bindReply re-validation", p.Pos(bind.Pos()), "cmd.mu.Lock() not found in bindReply")
+		return
+	}
+	// the store that marks the call as replied must be on the false edge of a hasReply() test made after the lock
+	var mark ssa.Instruction
+	Instrs(bind, func(i ssa.Instruction) {
+		st, ok := i.(*ssa.Store)
+		if !ok || !isFieldAddr(st.Addr, ccN, metaIdx) {
+			return
+		}
+		if call, ok := st.Val.(*ssa.Call); ok && CalleeObj(call) == acquire {
+			mark = i
+		}
+	})
+	ok := false
+	var pendingEdge *CondEdge
+	for _, e := range CondCallEdges(bind, hasReply) {
+		if Dominates(lockCall, e.Call) && mark != nil && BlockDominatesInstr(e.False, mark) {
+			e := e
+			pendingEdge = &e
+			ok = true
+		}
+	}
+	why := "bindReply does not re-check, after locking, that the call has no reply yet: a repeated REPLY frame for the same seq binds the already completed call and handleReply completes it again (second delivery, close of a closed channel: a remote peer can crash the process)"
+	if ok {
+		// on the already-completed edge: unlock, clear c.callCmd, and never reach the mark
+		w := &Walk{P: p, Stop: func(i ssa.Instruction) bool { return i == mark }}
+		w.FromBlock(pendingEdge.True)
+		unlocked, _ := false, 0
+		cleared := false
+		wk := &Walk{P: p, Stop: func(i ssa.Instruction) bool {
+			if call, isC := i.(*ssa.Call); isC && CalleeObj(call) == unlock && isCallCmdMu(p, call.Call.Args[0]) {
+				unlocked = true
+			}
+			if st, isSt := i.(*ssa.Store); isSt && isFieldAddr(st.Addr, hcN, ccIdx) && IsNilConst(st.Val) {
+				cleared = true
+			}
+			return false
+		}}
+		wk.FromBlock(pendingEdge.True)
+		// note: the true edge may be shared with the `|| !stat.OK()` disjunct; both lead to the same block
+		if len(w.Hits) > 0 || !unlocked || !cleared {
+			ok = false
+			why = "on the already-completed edge bindReply must release cmd.mu, unbind the context (c.callCmd = nil) and not mark the call again"
+		}
+	}
+	c.fact("dominance+path-search")
+	c.Check(ok, "bindReply binds a call at most once", p.InstrPos(lockCall), "hasReply() re-checked under the lock; completed calls are released and not bound", why)
 }
